@@ -44,7 +44,7 @@ def literals(xml_text):
 def coq_input(case):
     import xmlcorr
     ns = tuple(case["ns"])
-    x = xmlgen.document_xml(case["doc"], ns)
+    x = xmlgen.document_xml(case["doc"], ns, omit_seed=case.get("omit"))
     prefix = ns[1] if ns[0] == "prefix" else None
     return (f"(({literals(x)}, ({xmlcorr.copt(prefix)}, {xmlcorr.parsed_coq(x)}), {core.cstr(case['doc']['root'])}, "
             f"{genrun.opts_coq(case['opts'])}, {core.clist(core.cbytes(bytes.fromhex(pk)) for pk in case['packets'])}), "
@@ -58,7 +58,8 @@ def gen(rng, tier):
         doc = xmlgen.to_xml_loadable(defgen.rnd_definition(rng, apid_name="PKT_APID" if i % 5 else "APID"))
         ns = rng.choice([("prefix", "xtce"), defgen.rnd_prefix(rng), ("default",), ("none",)])
         try:
-            dobj = xmlgen.load(xmlgen.document_xml(doc, ns), ns)
+            omit = rng.choice([None, rng.randrange(1 << 30)])
+            dobj = xmlgen.load(xmlgen.document_xml(doc, ns, omit_seed=omit), ns)
         except Exception:  # noqa: BLE001
             dobj = None       # the case is kept: a generated document that does not load is itself a disagreement with the model
         pkts = []
@@ -67,14 +68,14 @@ def gen(rng, tier):
             pkts += (defgen.fit_packet(dobj, pk) if dobj is not None else [pk])[:rng.choice([1, 1, 2, 3])]
         rng.shuffle(pkts)
         opts = dict(genrun.DEFAULT_OPTS, parse_bad_pkts=rng.random() < 0.7, yield_unrecognized=rng.random() < 0.5)
-        cases.append({"doc": doc, "ns": list(ns), "opts": opts, "packets": [p.hex() for p in pkts[:12]]})
+        cases.append({"doc": doc, "ns": list(ns), "opts": opts, "packets": [p.hex() for p in pkts[:12]], "omit": omit})
     return cases
 
 
 def impl(case):
     def run():
         ns = tuple(case["ns"])
-        d = xmlgen.load(xmlgen.document_xml(case["doc"], ns), ns)
+        d = xmlgen.load(xmlgen.document_xml(case["doc"], ns, omit_seed=case.get("omit")), ns)
         stream = b"".join(bytes.fromhex(p) for p in case["packets"])
         return genrun.run_generator(d, stream, case["opts"], len(case["packets"]))
     out = core.guarded(run, timeout_s=30)
